@@ -97,10 +97,10 @@ def failure_key(model, ops, step, clause):
         s = model["contracts"][c]
         parts.append("spot" if s["cashreq"] == 1 else "margined")
         parts.append("mult1" if s["mult"] == 1 else "multN")
-    if op["op"] == "trade":
+    if op["op"] in ("trade", "tradeat"):
         pos = F(0)
         for o in ops[:step]:
-            if o["op"] == "trade" and o["c"] == c and o["out"] == "ok":
+            if o["op"] in ("trade", "tradeat") and o["c"] == c and o["out"] == "ok":
                 pos += F(*o["x"])
             if o["op"] == "rebalance" and o["out"] in ("ok", "broke") and isinstance(o.get("trades"), dict) \
                     and c in o["trades"]:
